@@ -20,7 +20,7 @@ from pav import harness, refmodel
 from pav.harness import Violation
 from pav.rig import ApiRig
 
-POOL = 4  # callables per scope
+POOL = 5  # callables per scope (slot % 5 selects the kind of callable)
 
 
 class ApiInterp:
@@ -78,6 +78,19 @@ class ApiInterp:
                 interp.calls.append((_key, arg))
                 if _key in interp.raising:
                     raise RuntimeError(f"subscriber {_key} fails")
+            # the API accepts any callable returning an awaitable: plain coroutine functions, partials, callable
+            # objects, bound methods and lambdas are all used (chosen by slot)
+            kind = slot % 5
+            if kind == 1:
+                import functools
+                cb = functools.partial(cb, _key=key)
+            elif kind == 2:
+                cb = _CallableObject(cb)
+            elif kind == 3:
+                cb = _Holder(cb).method
+            elif kind == 4:
+                inner = cb
+                cb = lambda arg: inner(arg)  # noqa: E731
             self.subs[key] = cb
         return self.subs[key]
 
@@ -359,6 +372,26 @@ class ApiInterp:
 
     def dispose(self):
         self.rig.dispose()
+
+
+class _CallableObject:
+    """A subscriber that is an instance with __call__ (no __name__ / __qualname__ of its own)."""
+
+    __slots__ = ("_fn",)
+
+    def __init__(self, fn):
+        self._fn = fn
+
+    def __call__(self, arg):
+        return self._fn(arg)
+
+
+class _Holder:
+    def __init__(self, fn):
+        self._fn = fn
+
+    async def method(self, arg):
+        await self._fn(arg)
 
 
 # ---------------------------------------------------------------------------- strategies
